@@ -12,9 +12,9 @@ PROP = 'C02'
 MANIFEST = dict(
     technique='TLA+ model (EscapeOps/Escape on top of the TokenizerOps lexer) checked by TLC; escape_text and the real tokenizer run on the same exhaustive family and on seeded random Unicode strings, every record validated by TLC (EscapeTrace)',
     category='model_checking',
-    text='TLC checks the inverse law (one STRING token equal to s, then EOF; no raw quote; no raw line break in single-line mode; the closing quote is the appended one) for every string up to length 4 (5 thorough) over the 14 characters that matter to escaping, in both modes, on the string reader alone, on the whole lexer under four option sets and step by step; the real escape_text/Tokenizer are run on exactly that family (count handshake) and on seeded random strings over all Unicode scalar values, alone, embedded at token boundaries of larger texts and inside lines written by the KeyValues1 and VMF entity writers; TLC compares every record character for character with Escape(s, ml) and with the run of the specified lexer.',
+    text='TLC checks the inverse law (one STRING token equal to s, then EOF; no raw quote; no raw line break in single-line mode; the closing quote is the appended one) for every string up to length 4 (5 thorough) over the 14 characters that matter to escaping, in both modes, on the string reader alone, on the whole lexer under four option sets and step by step; the real escape_text/Tokenizer are run on exactly that family (count handshake) and on seeded random strings over all Unicode scalar values, alone, embedded at token boundaries of larger texts and as value (and leaf name) inside lines written by Keyvalues.export/serialise, VMF Entity.export and BSP.write_ent_data (multiline mode); TLC compares every record character for character with Escape(s, ml) and with the run of the specified lexer.',
     design_ref='4 (C02)',
-    note='Trusts TLC and the projection (token name, value, line_num, exception type/message/line). Pure-Python tokenizer only (the Cython _tokenizer cannot be built here). BSP and DMX-KV2 writer lines are not exercised (byte encodings; covered by C11/C14).',
+    note='Trusts TLC and the projection (token name, value, line_num, exception type/message/line). Pure-Python tokenizer only (the Cython _tokenizer cannot be built here). DMX-KV2 writer lines are not exercised (needs a whole element graph; C14).',
 )
 
 ACTIONS = {'Grow', 'Start', 'Open', 'Char', 'Backslash', 'Letter', 'Close', 'Eof'}
@@ -65,16 +65,21 @@ def run(tier: str, seed: int) -> int:
             p = work.path(mode + '.ndjson')
             core.run_driver('c02_driver.py', [mode, p], env=env)
             outs.append(p)
-        # 4. TLC validates every record
-        allm, total, samples = [], 0, []
-        for p in outs:
-            mism, st = tokcheck.validate_records('EscapeTrace', 'EscapeTrace.cfg', p, work=work)
-            allm += mism
-            total += st['records']
-            cov['states'] += st['states']
-            cov['transitions'] += st['transitions']
-            rs = core.read_ndjson(p)
-            samples.append({k: v for k, v in rs[(len(rs) * 2) // 3].items() if k not in ('sig', 'fold', 'msg')})
+        # 4. TLC validates every record (one pass)
+        allp = work.path('all.ndjson')
+        samples = []
+        with open(allp, 'w', encoding='utf-8') as out:
+            for p in outs:
+                txt = p.read_text(encoding='utf-8')
+                if not txt.strip():
+                    raise core.MachineryError(f'driver produced no records: {p.name}')
+                out.write(txt)
+                lines = txt.splitlines()
+                samples.append({k: v for k, v in json.loads(lines[(len(lines) * 2) // 3]).items() if k not in ('sig', 'fold', 'msg')})
+        allm, st = tokcheck.validate_records('EscapeTrace', 'EscapeTrace.cfg', allp, work=work, timeout=3000)
+        total = st['records']
+        cov['states'] += st['states']
+        cov['transitions'] += st['transitions']
         cov['traces_validated_against_impl'] = total
         cov['records_validated'] = total
         cov['mismatches'] = len(allm)
@@ -83,8 +88,8 @@ def run(tier: str, seed: int) -> int:
         cov['rule'] = (f'every string of length <= {fam["maxlen"]} over the code points {fam["alphabet"]} x multiline in '
                        '{False, True} (model and implementation, same count); seeded random strings over all Unicode '
                        'scalar values with forced trailing backslash / backslash-LF / CR-LF cases, alone, embedded '
-                       'between random token soup, and as values of lines written by Keyvalues.export/serialise and '
-                       'Entity.export')
+                       'between random token soup, and as values/names of lines written by Keyvalues.export/serialise, '
+                       'Entity.export, BSP.write_ent_data')
         known, new = core.classify(PROP, [sig_of(m) for m in allm])
         return core.finish(PROP, tier=tier, seed=seed, t0=t0, coverage=cov, known=known, new=new,
                            assumptions=['pure-Python srctools.tokenizer from /repo/src (the Cython accelerator cannot be built here)',
